@@ -19,12 +19,17 @@ Proved (all streams, thresholds of either sign, monotone counts, zero-threshold 
 * `C08_block_independent`         the sequence of record specifications (frame, pre-trigger length, length)
                                   is the same whether the stream arrives cut into any blocks or as one
                                   block (simulation proof: `Lemmas/EmtSim.lean`, `EmtStep.lean`).
+* `C08_records_block_independent` the same for the RECORDS of the real step (append → `TriggerData` → trim):
+                                  same frames, pre-trigger lengths and samples whatever the partition
+                                  (`Lemmas/EmtRecs.lean`: records = cuts of the specifications = excerpts of
+                                  the delivered stream).
 * `C08_no_oob`                    across blocks too, no search read and no record cut ever leaves the
                                   buffer (invariant `EmtSafe`: the pending edge is recorded, absent, or
                                   recent enough that its whole record is retained).
 -/
 import DastardV.Lemmas.EmtStep
 import DastardV.Lemmas.EmtSafe
+import DastardV.Lemmas.EmtRecs
 namespace DastardV.C08
 open Trig
 
@@ -106,31 +111,14 @@ example : FreshC { npre := 4, nsamp := 12, emt := { npre := 4, nsamp := 12, thre
 
 /-! ### never indexes outside -/
 
-/-- one block of the real per-channel pipeline in edge-multi mode: append, `TriggerData` (search +
-record cuts), trim -/
-def stepFull (zt : ZT) (c : Chan) (seg : List Nat) (first t0 per : Int) (sg : Bool) : Option (Chan × List Rec) :=
-  match triggerData (append c seg first t0 per sg) zt with
-  | none => none
-  | some (c', recs) => some (trim c', recs)
-
-def runFull (zt : ZT) (t0 per : Int) (sg : Bool) : Chan → Int → List (List Nat) → Option (Chan × List Rec)
-  | c, _, [] => some (c, [])
-  | c, first, seg :: segs =>
-    match stepFull zt c seg first t0 per sg with
-    | none => none
-    | some (c1, rs) =>
-      match runFull zt t0 per sg c1 (first + seg.length) segs with
-      | none => none
-      | some (c2, rs2) => some (c2, rs ++ rs2)
-
-theorem runFull_some (zt : ZT) (hzt : ∀ p, -1 ≤ zt p ∧ zt p ≤ 1) (t0 per : Int) (sg : Bool) :
-    ∀ (segs : List (List Nat)) (c : Chan) (first : Int), EmtSafe c →
+theorem runFull_some (zt : ZT) (hzt : ∀ p, -1 ≤ zt p ∧ zt p ≤ 1) (tp : Nat → Int × Int) (sg : Bool) :
+    ∀ (segs : List (List Nat)) (n : Nat) (c : Chan) (first : Int), EmtSafe c →
       ((c.emt.next = 0 ∧ 0 ≤ first) ∨ (c.emt.next ≠ 0 ∧ first = c.first + c.buf.length)) →
-      ∃ r, runFull zt t0 per sg c first segs = some r
-  | [], c, first, _, _ => ⟨_, rfl⟩
-  | seg :: segs, c, first, hs, hcont => by
-    obtain ⟨c', recs, htd, hs', hnz, hend⟩ := emtSafe_step c zt hzt hs seg first t0 per sg hcont
-    obtain ⟨r, hr⟩ := runFull_some zt hzt t0 per sg segs (trim c') (first + seg.length) hs' (Or.inr ⟨hnz, hend.symm⟩)
+      ∃ r, runFull zt tp sg n c first segs = some r
+  | [], n, c, first, _, _ => ⟨_, rfl⟩
+  | seg :: segs, n, c, first, hs, hcont => by
+    obtain ⟨c', recs, htd, hs', hnz, hend⟩ := emtSafe_step c zt hzt hs seg first (tp n).1 (tp n).2 sg hcont
+    obtain ⟨r, hr⟩ := runFull_some zt hzt tp sg segs (n + 1) (trim c') (first + seg.length) hs' (Or.inr ⟨hnz, hend.symm⟩)
     refine ⟨(r.1, recs ++ r.2), ?_⟩
     unfold runFull stepFull
     simp only [htd]
@@ -141,10 +129,38 @@ stream content, ANY cut into blocks (any lengths, including empty blocks and blo
 record), any threshold / monotone count / record mode and any kink-fit oracle with shifts in
 {−1, 0, +1}: every block is processed — no read of the search and no record cut leaves the buffer
 (in the model a Go index/slice panic is the value `none`). -/
-theorem C08_no_oob (zt : ZT) (hzt : ∀ p, -1 ≤ zt p ∧ zt p ≤ 1) (t0 per f0 : Int) (hf0 : 0 ≤ f0) (sg : Bool)
+theorem C08_no_oob (zt : ZT) (hzt : ∀ p, -1 ≤ zt p ∧ zt p ≤ 1) (tp : Nat → Int × Int) (n : Nat) (f0 : Int)
+    (hf0 : 0 ≤ f0) (sg : Bool)
     (c : Chan) (hs : EmtSafe c) (hfresh : c.buf = [] ∧ c.emt.next = 0) (segs : List (List Nat)) :
-    ∃ r, runFull zt t0 per sg c f0 segs = some r :=
-  runFull_some zt hzt t0 per sg segs c f0 hs (Or.inl ⟨hfresh.2, hf0⟩)
+    ∃ r, runFull zt tp sg n c f0 segs = some r :=
+  runFull_some zt hzt tp sg segs n c f0 hs (Or.inl ⟨hfresh.2, hf0⟩)
+
+/-- **C08, block independence of the RECORDS.**  The real per-channel pipeline (`runFull`: append →
+`TriggerData` → trim, block `n` stamped with any time and period `tp n`) on a freshly configured
+edge-multi channel, fed the same stream once cut into ANY blocks and once as a single block: whenever
+neither run panics (and `C08_no_oob` shows they do not), the two runs emit the same records — the same
+trigger frames, the same pre-trigger lengths and the same samples, in the same order — for every
+threshold, monotone count, record mode, signedness flag and kink-fit oracle.  (Time stamps are derived
+from the block stamps and are outside this statement.) -/
+theorem C08_records_block_independent (zt : ZT) (hzt : ∀ p, -1 ≤ zt p) (tp tq : Nat → Int × Int) (n m : Nat)
+    (f0 : Int) (hf0 : 0 ≤ f0) (sg sg' : Bool) (c : Chan) (hf : FreshC c) (hem : c.ts.edgeMulti = true)
+    (seg : List Nat) (segs : List (List Nat)) (c1 c2 : Chan) (r1 r2 : List Rec)
+    (hmulti : runFull zt tp sg n c f0 (seg :: segs) = some (c1, r1))
+    (hsingle : runFull zt tq sg' m c f0 [(seg :: segs).flatten] = some (c2, r2)) :
+    r1.map coreOf = r2.map coreOf := by
+  have hns : 0 ≤ c.emt.nsamp := by have := hf.hok.npre3; have := hf.hok.lt; omega
+  have hrep : RepOrFresh [] f0 c := Or.inl ⟨hf.hbuf, rfl⟩
+  obtain ⟨a1, e1, he1, hs1, hx1⟩ := runFull_specs zt tp 1 sg false f0 (seg :: segs) n c c [] c1 r1 hem hns
+    (EmtEq.refl c) hrep (by simpa using hmulti)
+  obtain ⟨a2, e2, he2, hs2, hx2⟩ := runFull_specs zt tq 1 sg' false f0 [(seg :: segs).flatten] m c c [] c2 r2 hem hns
+    (EmtEq.refl c) hrep (by simpa using hsingle)
+  have he : e1 = e2 := C08_block_independent zt hzt 1 f0 hf0 false c hf seg segs a1 a2 e1 e2
+    (by simpa using he1) (by simpa using he2)
+  have hx2' : ∀ r ∈ r2, Excerpt ([] ++ (seg :: segs).flatten) f0 r := by
+    intro r hr
+    have := hx2 r hr
+    simpa using this
+  exact cores_eq_of_specs (by rw [hs1, hs2, he]) hx1 hx2'
 
 /-- the hypotheses are met by an ordinary configuration -/
 example : EmtSafe { npre := 4, nsamp := 12, ts := { edgeMulti := true },
